@@ -227,7 +227,7 @@ def shards(tier):
 def run_shard(spec, seed, tier):
     res = core.ShardResult()
     kf = known.load(PROPERTY)
-    opts = {"alt": True}
+    opts = {"alt": True, "last_listed_not_last": True}
     if spec[2] == "cond":
         opts["condensed"] = True
 
